@@ -46,7 +46,9 @@ TARGETS = store.pools(False)['targets']
 @st.composite
 def _case(draw, held=False):
     pool = draw(store.alg_pool(False))
-    contents = draw(st.lists(store.content, min_size=2, max_size=5))
+    contents = draw(st.lists(
+        st.one_of(store.content, store.content, store.content,
+                  store.big_content), min_size=2, max_size=5))
     n = len(pool)
     a = st.integers(0, n - 1)
     t = st.sampled_from(TARGETS)
@@ -197,6 +199,10 @@ def execute(case):
                     break
             elif kind == 'bump':
                 bumped.add(bump(s, op))
+                # a version changes with the code: no dataset of the old
+                # process survives that
+                for slot, h in list(held.items()):
+                    held[slot] = s.hold(h['t'], h['run'], h['i'])
             elif kind == 'rm':
                 _, run, t, i, j, k = op
                 a = s.pool[i]
